@@ -150,6 +150,7 @@ pub fn lane_main(args: &Args) -> i32 {
     }
     drop(ctx);
     let _ = std::fs::remove_dir_all(&scratch);
+    let _ = std::fs::remove_dir_all(scratch_base());
     let res = json!({
         "evaluations": evaluations,
         "hashes": hashes.iter().collect::<Vec<_>>(),
